@@ -218,3 +218,14 @@ for _p in ("C02", "C05", "C07"):
     PROPS[_p]["rule"] = PROPS[_p]["rule"] + TMO_RULE
 PROPS["C02"]["rule"] += " c02 also: a read failure inside the message that repeats 1, 2 or 3 times (scripted equivalent of an expired deadline) x backend {reads all, stops early and accepts} x {timeout, error}: closes iff the drain cannot reach the end marker."
 PROPS["C05"]["rule"] += " c05 also: a read failure inside a chunk that repeats 1, 2 or 3 times x {accepted (SMTP, LMTP, LMTP per-recipient), refused (no MAIL, bad LAST token, over the limit)} x {LAST, not LAST}: an accepted chunk survives one failure (the discard skips the rest), a refused one none."
+
+# kinds with a real clock (seeded changes C13G, C16G, C06G: regressions that need deadlines that work / reads that fail
+# mid-message and a backend that reads on)
+PROPS["C06"]["rule"] += (" c06 also: a DATA message of 2N..3N octets delivered in raw reads of k octets each followed by a read failure (time-out /"
+                         " connection error; k in {1,2,3,N/2,N-1}) and a backend that reads on after the failures (DataPlan.Retry) with buffers"
+                         " above, at and below k: stalls within the first N octets (N octets, ErrDataTooLarge, 552, next command runs), the whole"
+                         " message trickling (552 and close), a message within the limit with stalls (accepted), a backend that gives up one failure"
+                         " early; these conv cases carry (nomodel) - the server model's backend stops at the first failed read - and are judged by the"
+                         " size oracle on ALL octets the backend obtained, failed reads included, plus reply codes and forbid-eof. dr also: the same"
+                         " on the reader in isolation (limit 1..8, bodies N-1..3N+1, failures between the raw reads of the first N octets, backend"
+                         " reading on), compared with the model ReadRetry.be_read_retry and judged by the C06 oracle of CheckDr.v.")
